@@ -99,7 +99,9 @@ func runRegistry(withStops bool) func(rc *core.RunCtx) {
 		nids := g.Range(1, 3)
 		ids := []string{}
 		for i := 0; i < nids; i++ {
-			ids = append(ids, fmt.Sprintf("reg/i%d", i))
+			// ids that are string prefixes of one another, with and without the
+			// separator in between: they are different actors all the same
+			ids = append(ids, []string{"reg/i1", "reg/i10", "reg/i1/x"}[i])
 		}
 		ntasks := 2 + g.Pick(3, 3, 2)
 		maxOps := 6
